@@ -1422,6 +1422,8 @@ pub fn oracle(prop: &str, g: &Group, obs: &[Obs]) -> Option<String> {
             let _ = c;
             None
         }
+        "C03" | "C06" | "C07" => crate::oracle_a::oracle(prop, g, obs),
+        "C04" | "C05" | "C15" | "C19" | "C20" => crate::oracle_b::oracle(prop, g, obs),
         _ => None,
     }
 }
